@@ -21,7 +21,7 @@ PROPS_PRE = {
 }
 
 PROPS = dict(PROPS_PRE)
-for _pid, _scn in [('C19','C19'),('C17','C17'),('C18','C18'),('C04','C04'),('C09','C09'),('C08','C08'),('C14','C14'),('C05','C05'),('C06','C06'),('C07','C07'),('C10','C10'),('C11','C11'),('C12','C12'),('C15','C15')]:
+for _pid, _scn in [('C13','C13'),('C19','C19'),('C17','C17'),('C18','C18'),('C04','C04'),('C09','C09'),('C08','C08'),('C14','C14'),('C05','C05'),('C06','C06'),('C07','C07'),('C10','C10'),('C11','C11'),('C12','C12'),('C15','C15')]:
     PROPS[_pid] = dict(level='exploration', rule=NONTRIVIAL, assumptions=COMMON_ASSUMPTIONS,
                        legs=legs(_scn, 6000, 60, 400000, 1500), reports=[_pid])
 
@@ -33,6 +33,7 @@ def add_leg(pid, scn, q_runs, q_budget, t_runs, t_budget):
 add_leg('C18', 'D_deadline_rearm', 1500, 30, 60000, 300)
 add_leg('C15', 'C15b', 4000, 60, 200000, 900)
 add_leg('C17', 'C17w', 3000, 60, 200000, 900)
+add_leg('C13', 'C13e', 3000, 60, 200000, 900)
 add_leg('C19', 'D_heartbeat', 1, 10, 1, 10)
 add_leg('C19', 'D_dup_sack', 1, 10, 1, 10)
 
@@ -119,6 +120,13 @@ MANIFEST_TEXT.update({
                 note=SIM_NOTE),
 })
 
+MANIFEST_TEXT.update({
+    'C13': dict(design_ref='DESIGN.md §5 C13',
+                technique='deterministic simulation: twin runs of one seed (packet corrupted / checksum zeroed vs. the same packet lost or intact) must give identical observable histories; checksum field of every emitted packet judged against the negotiation seen on the wire',
+                text='Acceptance: for each seed one packet (handshake packets included) is corrupted with a non-zero wrong checksum, or gets a zero checksum, and the run is compared event by event (API results, emitted bytes, virtual times) with the twin in which that packet is lost - or delivered intact when the receiver declared zero-checksum acceptance and the packet does not start with INIT / COOKIE-ECHO. Emission: in every run of the C13 legs (and all other scenarios) a checksum field must be correct or zero, zero only after the peer declared acceptance with the DTLS method and never on INIT / COOKIE-ECHO packets. Evidence, not proof.',
+                note=SIM_NOTE + ' Twin runs use the deterministic run-to-completion schedule and identity select/map orders so that both runs consume their decision tapes identically.'),
+})
+
 # properties whose check is not built yet (kept current as the work proceeds)
 NOT_BUILT = {pid: 'check not built yet in this session (work in progress, see DESIGN.md §10)' for pid in
-             ['C03','C13','C16','C20']}
+             ['C03','C16','C20']}
